@@ -448,11 +448,16 @@ var solvers = []solverSpec{
 }
 
 func runSolver(sp solverSpec, query string, timeoutS int, wantModel bool) SolveResult {
+	return runSolverCtx(context.Background(), sp, query, timeoutS, wantModel)
+}
+
+// runSolverCtx: parent may be cancelled when another solver has already proved the query (the result is then "cancelled").
+func runSolverCtx(parent context.Context, sp solverSpec, query string, timeoutS int, wantModel bool) SolveResult {
 	q := query
 	if wantModel {
 		q += "(get-model)\n"
 	}
-	ctx, cancel := context.WithTimeout(context.Background(), time.Duration(wallFor(timeoutS)+5)*time.Second)
+	ctx, cancel := context.WithTimeout(parent, time.Duration(wallFor(timeoutS)+5)*time.Second)
 	defer cancel()
 	a := sp.args(timeoutS)
 	cmd := exec.CommandContext(ctx, a[0], a[1:]...)
@@ -503,21 +508,41 @@ func solve(query string, timeoutS int) (SolveResult, []SolveResult) {
 	if r.Status == "unsat" {
 		return r, all
 	}
+	// second tier: all solvers at the full budget, in parallel; as soon as one proves the query the others are stopped
+	ctx2, cancel2 := context.WithCancel(context.Background())
 	var wg sync.WaitGroup
+	var mu sync.Mutex
 	res := make([]SolveResult, len(solvers))
+	report := func(r SolveResult) {
+		if r.Status == "unsat" {
+			cancel2()
+		}
+	}
 	for i := 1; i < len(solvers); i++ {
 		wg.Add(1)
 		go func(i int) {
 			defer wg.Done()
-			res[i] = runSolver(solvers[i], query, timeoutS, true)
+			rr := runSolverCtx(ctx2, solvers[i], query, timeoutS, true)
+			mu.Lock()
+			res[i] = rr
+			mu.Unlock()
+			report(rr)
 		}(i)
 	}
 	var r0 SolveResult
 	if r.Status != "sat" && timeoutS > quick {
 		wg.Add(1)
-		go func() { defer wg.Done(); r0 = runSolver(solvers[0], query, timeoutS, true) }()
+		go func() {
+			defer wg.Done()
+			rr := runSolverCtx(ctx2, solvers[0], query, timeoutS, true)
+			mu.Lock()
+			r0 = rr
+			mu.Unlock()
+			report(rr)
+		}()
 	}
 	wg.Wait()
+	cancel2()
 	if r0.Status != "" {
 		all = append(all, r0)
 	}
@@ -542,6 +567,40 @@ func solve(query string, timeoutS int) (SolveResult, []SolveResult) {
 	if sawSat && sawUnsat {
 		best.Status = "disagree"
 		return best, all
+	}
+	if !sawSat && !sawUnsat && timeoutS > quick {
+		// third tier: the same query under other random seeds (a fixed list, so the outcome is reproducible). Quantifier
+		// instantiation is sensitive to the seed: queries that time out under one seed are often decided at once under another.
+		seeds := []int{2, 3, 5, 6}
+		sres := make([]SolveResult, len(seeds))
+		var wg2 sync.WaitGroup
+		ctx3, cancel3 := context.WithCancel(context.Background())
+		defer cancel3()
+		for i, sd := range seeds {
+			wg2.Add(1)
+			go func(i, sd int) {
+				defer wg2.Done()
+				sp := solverSpec{fmt.Sprintf("z3-5.1.0/seed%d", sd), func(t int) []string {
+					return []string{"z3-new", "-in", "-smt2", fmt.Sprintf("-T:%d", wallFor(t)), fmt.Sprintf("rlimit=%d", t*z3UnitsPerSec), fmt.Sprintf("smt.random_seed=%d", sd), fmt.Sprintf("sat.random_seed=%d", sd)}
+				}}
+				sres[i] = runSolverCtx(ctx3, sp, query, timeoutS, true)
+				if sres[i].Status == "unsat" {
+					cancel3()
+				}
+			}(i, sd)
+		}
+		wg2.Wait()
+		all = append(all, sres...)
+		for _, x := range sres {
+			if x.Status == "unsat" {
+				return x, all
+			}
+		}
+		for _, x := range sres {
+			if x.Status == "sat" {
+				return x, all
+			}
+		}
 	}
 	if !sawSat && !sawUnsat {
 		best = all[0]
